@@ -191,6 +191,9 @@ func TestC15TokenBucket(t *testing.T) {
 			}
 			ch := vnet.VerifNewChunkUDP(srcAddr, dstAddr, payload)
 			q0, b0 := tbf.VerifQueue()
+			if q0 < 0 || b0 < 0 {
+				t.Fatalf("VERIF-INFRA: the chunk queue of this tree cannot be read by the shim (fields chunks/currentBytes are gone); C15's discard rule cannot be judged")
+			}
 			f0 := len(events)
 			// optimistic: assume accepted; corrected below if it was discarded
 			expected = append(expected, ch)
